@@ -31,7 +31,9 @@ def run(ctx):
     if len(cmds) == 2:
         src = sources(an, cmds[1].term.args[0], deep=True)
         ctx.ob('R17.1', 'both commands go into the same pipeline', any(s[0] == 'call' and s[2] == cmds[0].idx for s in src), ctx.where(rec, cmds[1].term.line), '', construct='recycle:one-pipeline')
-    fa = [blk for blk in rec.blocks if blk.term.kind == 'call' and not blk.cleanup and any('atomic' in n and n.endswith('::fetch_add') for n in blk.term.callee_names())]
+    # (other counters - diagnostics - may be bumped here too: the PING counter is the field named by the property's anchor)
+    fa = [blk for blk in rec.blocks if blk.term.kind == 'call' and not blk.cleanup and any('atomic' in n and n.endswith('::fetch_add') for n in blk.term.callee_names())
+          and blk.term.args and any(s[0] == 'field' and s[1] == 'deadpool_redis::Manager.ping_number' for s in sources(an, blk.term.args[0]))]
     okf = len(fa) == 1 and an.resolve_operand(fa[0].term.args[1]) == '1_usize' and any(s[0] == 'field' and s[1] == 'deadpool_redis::Manager.ping_number' for s in sources(an, fa[0].term.args[0]))
     ctx.ob('R17.1', 'a fresh number is drawn from the manager counter (fetch_add 1)', okf, ctx.where(rec), '', construct='recycle:counter')
     # the only update of that field in the crate
